@@ -21,6 +21,7 @@ type Source struct {
 // appended by init() functions in sources_ext.go.
 var Sources = []Source{
 	{Name: "execgen/templates", Gen: func(r *rand.Rand, n int) []prog.History { return Templates(r, 3*n) }},
+	{Name: "execgen/typeprobe", Gen: func(r *rand.Rand, n int) []prog.History { return TypeProbes(r, n) }},
 }
 
 // Register appends a source (used by sources_ext.go).
